@@ -104,7 +104,7 @@ func dirties(q string) bool {
 
 // panicSig is panic:<frame that raised the panic>:<stripped message>.
 func panicSig(p *core.PanicInfo) string {
-	return "panic:" + g12lib.DeepPanicSite(p.Stack) + ":" + core.StripVolatile(p.Value)
+	return g12lib.PanicSig(p.Stack, p.Value, core.StripVolatile)
 }
 
 func clip(s string) string { return core.Clip(s, 4000) }
